@@ -271,7 +271,8 @@ impl Group for EnfGroup {
         if self.free {
             return "enforcement, monitor-only: the same real Node + channel world and request kinds, but the policy filter demotes ONE \
                     tag that C01-C03 do not rest on to a warning (retry-same, fee-range, htlc bounds, routing-balanced, mutual-*, ...; \
-                    with retry-same demoted only the re-sign monitor is disarmed) and/or the store refuses every write during single \
+                    with retry-same demoted only the re-sign monitor is disarmed) or EVERY tag except the guard tags (`filter *`), under \
+                    SimpleValidatorFactory or the OnchainValidatorFactory wrapper (`@onchain`), on testnet or regtest (`@regtest`), and/or the store refuses every write during single \
                     requests (`failw`): what is acknowledged counts, a refused request is followed by a restart; no model comparison, \
                     all C01/C02/C03 monitors armed; non-trivial = at least one accepted state-changing request and one refusal";
         }
@@ -320,6 +321,15 @@ impl Group for EnfGroup {
                 )));
                 // holder side under the same filters: no secret without a validated successor, no revoke after signing
                 v.push(f(&format!("filter {}|setup|validate 0 0 1 1 2|activate|validate 1 9 1 0 2|revoke 1 1|getsecret 0|validate 1 1 0 1 2 0|revoke 1 1|validate 1 1 1 1 2|signholder 0|revoke 1 1|hrevoke 6 0 1|getsecret 0", tag)));
+            }
+            // the same two histories under the widest filter (`*`: everything but the guard tags is a warning), under vlsd's
+            // default validator (Onchain wrapper, funding not buried: its depth gate demoted) and on regtest
+            for cfg in ["*", "*@onchain", "*@onchain@regtest", "policy-commitment-spends-active-utxo@onchain", "*@regtest"] {
+                v.push(f(&format!(
+                    "filter {cfg}|setup|signcp 0 1000 0 1 2|signcp 1 1005 0 1 2|revokecp 0 {s0} 1000|signcp 2 1008 0 1 2|revokecp 1 {a1} 1005|hrevokecp 1 {a1} 1005|signcp 0 1001 1 1 2|signcp 3 1012 0 1 2",
+                    cfg = cfg, s0 = seeded(0), a1 = hex::encode(alt_secret(1))
+                )));
+                v.push(f(&format!("filter {}|setup|validate 0 0 1 1 2|activate|validate 1 9 1 0 2|revoke 1 1|getsecret 0|validate 1 1 0 1 2 0|revoke 1 1|validate 1 1 1 1 2|signholder 0|revoke 1 1|hrevoke 6 0 1|getsecret 0", cfg)));
             }
             // the store refuses the writes of one request: whatever is acknowledged counts, then restart from the store
             v.push(f("setup|signcp 0 1000 0 1 2|failw signcp 1 1004 0 1 2|restart|signcp 1 1005 1 1 2|signcp 1 1004 0 1 2"));
@@ -404,7 +414,18 @@ impl Group for EnfGroup {
         v
     }
     fn gen_case(&self, rng: &mut Rng, tier: Tier) -> Vec<String> {
-        let demoted: Option<String> = if self.free && rng.chance(5, 6) { Some(rng.pick(&DEMOTABLE_TAGS).to_string()) } else { None };
+        // deployment configuration of the monitor-only group (round 9): the demoted tag — one unrelated tag, or `*` = every
+        // tag except the guard tags C01-C03 rest on —, the validator factory (Simple / vlsd's default Onchain wrapper, whose
+        // funding-depth gate `policy-commitment-spends-active-utxo` has to be demoted for the state to advance without a
+        // chain) and the network (testnet / regtest)
+        let demoted: Option<String> = if self.free && rng.chance(5, 6) {
+            let onchain = rng.chance(1, 3);
+            let tag = if rng.chance(1, 3) { "*".to_string() }
+                      else if onchain { "policy-commitment-spends-active-utxo".to_string() }
+                      else { rng.pick(&DEMOTABLE_TAGS).to_string() };
+            let net = if rng.chance(1, 3) { "@regtest" } else { "" };
+            Some(format!("{}{}{}", tag, if onchain { "@onchain" } else { "" }, net))
+        } else { None };
         let backup = self.free && rng.chance(1, 3);
         let mut w = World::new_cfg2(demoted.clone(), backup);
         let mut ops = Vec::new();
